@@ -7,6 +7,12 @@
     F7  FindInBatches under a user `Order` that is not key-monotone skips / repeats rows,
     F7b FindInBatches on a chain containing an `Or` member never advances,
     F7c FindInBatches on a chain whose effective LIMIT is 0 delivers every row (Find delivers none).
+
+  Repairs.  F7c and F7e (below) have a small repair; whether it is present in the tree being verified is a
+  regenerated fact (Gen/ReadPathFacts.lean) and a Bool parameter of the model function (`findInBatches zeroRet`,
+  `dbScan reset`): `_counterexample` speaks about the transcription without the repair, the `_repaired` theorems
+  state the property WITHOUT the excluding hypothesis for the transcription with it, and `_current_tree` discharges
+  "full property, or the listed witness fails" for the transcription the fact selects.
 -/
 import GormModel.Model.Limit
 import GormModel.Model.Batches
@@ -16,6 +22,7 @@ import GormModel.Lemmas.Batches
 import GormModel.Lemmas.ReadPaths
 import GormModel.Model.ScanLoop
 import GormModel.Lemmas.ScanLoop
+import GormModel.Gen.ReadPathFacts
 namespace Gorm
 
 /-! ## Limit / Offset merge as a fold over ANY call sequence -/
@@ -53,11 +60,12 @@ example : effLimitOf (applyCalls none [.limit 3, .offset 5, .limit (-1), .offset
     returns for the same chain (`take limit (drop offset rows)`), no batch is empty or larger than requested,
     the keys are strictly increasing across batches (so no row twice; none missing by the first conjunct),
     RowsAffected is the number of rows delivered, the loop ends by itself within the given fuel and never
-    reports ErrPrimaryKeyRequired.  `hL0` excludes finding F7c (effective LIMIT 0). -/
-theorem C15_batches_exact (rows : List Nat) (lim : Option Limit) (batch : Int)
+    reports ErrPrimaryKeyRequired.  `hL0` excludes finding F7c (effective LIMIT 0); it holds for both
+    transcriptions of the preamble (`zeroRet`), `C15_batches_exact_repaired` drops it for the repaired one. -/
+theorem C15_batches_exact (zeroRet : Bool) (rows : List Nat) (lim : Option Limit) (batch : Int)
     (hs : rows.Pairwise (· < ·)) (hp : ∀ k ∈ rows, 0 < k) (hb : 0 < batch)
     (hL0 : effLimitOf lim ≠ some 0) :
-    let out := findInBatches rows lim batch (rows.length + 2)
+    let out := findInBatches zeroRet rows lim batch (rows.length + 2)
     out.batches.flatten = findAll rows lim
     ∧ findAll rows lim = window rows (effLimitOf lim) (effOffsetOf lim)
     ∧ (∀ b ∈ out.batches, b ≠ [] ∧ (b.length : Int) ≤ batch)
@@ -65,34 +73,61 @@ theorem C15_batches_exact (rows : List Nat) (lim : Option Limit) (batch : Int)
     ∧ out.rowsAffected = (out.batches.flatten.length : Int)
     ∧ out.outOfFuel = false ∧ out.pkRequired = false := by
   intro out
-  obtain ⟨h1, h2, h3, h4, h5⟩ := findInBatches_spec rows lim batch (rows.length + 2) hs hp hb hL0 (by omega)
+  obtain ⟨h1, h2, h3, h4, h5⟩ := findInBatches_spec zeroRet rows lim batch (rows.length + 2) hs hp hb hL0 (by omega)
   refine ⟨h1, rfl, h2, ?_, ?_, h3, h4⟩
-  · show (findInBatches rows lim batch (rows.length + 2)).batches.flatten.Pairwise (· < ·)
+  · show (findInBatches zeroRet rows lim batch (rows.length + 2)).batches.flatten.Pairwise (· < ·)
     rw [h1]; exact List.Pairwise.sublist (findAll_sublist rows lim) hs
-  · show (findInBatches rows lim batch (rows.length + 2)).rowsAffected = _
+  · show (findInBatches zeroRet rows lim batch (rows.length + 2)).rowsAffected = _
     rw [h5, h1]
+
+/-- FULL strength (no exclusion of LIMIT 0) for the transcription WITH the early return
+    `if limit.Limit != nil && totalSize == 0 { tx.AddError(queryDB.Find(dest).Error); return tx }`: for ALL table sizes, batch sizes, limits
+    (0 included) and offsets FindInBatches delivers exactly Find's rows, once each, in key order, in non-empty
+    batches no larger than requested, with RowsAffected = rows delivered, and ends by itself. -/
+theorem C15_batches_exact_repaired (rows : List Nat) (lim : Option Limit) (batch : Int)
+    (hs : rows.Pairwise (· < ·)) (hp : ∀ k ∈ rows, 0 < k) (hb : 0 < batch) :
+    let out := findInBatches true rows lim batch (rows.length + 2)
+    out.batches.flatten = findAll rows lim
+    ∧ findAll rows lim = window rows (effLimitOf lim) (effOffsetOf lim)
+    ∧ (∀ b ∈ out.batches, b ≠ [] ∧ (b.length : Int) ≤ batch)
+    ∧ out.batches.flatten.Pairwise (· < ·)
+    ∧ out.rowsAffected = (out.batches.flatten.length : Int)
+    ∧ out.outOfFuel = false ∧ out.pkRequired = false := by
+  intro out
+  obtain ⟨h1, h2, h3, h4, h5⟩ := findInBatches_spec_zeroRet rows lim batch (rows.length + 2) hs hp hb (by omega)
+  refine ⟨h1, rfl, h2, ?_, ?_, h3, h4⟩
+  · show (findInBatches true rows lim batch (rows.length + 2)).batches.flatten.Pairwise (· < ·)
+    rw [h1]; exact List.Pairwise.sublist (findAll_sublist rows lim) hs
+  · show (findInBatches true rows lim batch (rows.length + 2)).rowsAffected = _
+    rw [h5, h1]
+
+/-- non-vacuity of the repaired case: `Limit(0).Offset(1)` on three rows: nothing delivered, ONE query
+    `LIMIT 0 OFFSET 1`, and that is what Find returns -/
+example : (findInBatches true [1, 2, 3] (applyCalls none [.limit 0, .offset 1]) 2 5).batches = []
+    ∧ (findInBatches true [1, 2, 3] (applyCalls none [.limit 0, .offset 1]) 2 5).queries = [⟨0, some 1, none⟩]
+    ∧ findAll [1, 2, 3] (applyCalls none [.limit 0, .offset 1]) = [] := by decide
 
 /-- Termination = fuel adequacy: ANY fuel above the table size suffices (the loop performs at most
     `rows.length + 1` queries); a failure of this theorem would be a non-termination finding
     (and is one for chains with `Or`: `C15_batches_or_counterexample`). -/
-theorem C15_batches_terminates (rows : List Nat) (lim : Option Limit) (batch : Int) (fuel : Nat)
+theorem C15_batches_terminates (zeroRet : Bool) (rows : List Nat) (lim : Option Limit) (batch : Int) (fuel : Nat)
     (hs : rows.Pairwise (· < ·)) (hp : ∀ k ∈ rows, 0 < k) (hb : 0 < batch)
     (hL0 : effLimitOf lim ≠ some 0) (hf : rows.length + 1 ≤ fuel) :
-    (findInBatches rows lim batch fuel).outOfFuel = false
-    ∧ (findInBatches rows lim batch fuel).batches.flatten = findAll rows lim :=
-  have h := findInBatches_spec rows lim batch fuel hs hp hb hL0 hf
+    (findInBatches zeroRet rows lim batch fuel).outOfFuel = false
+    ∧ (findInBatches zeroRet rows lim batch fuel).batches.flatten = findAll rows lim :=
+  have h := findInBatches_spec zeroRet rows lim batch fuel hs hp hb hL0 hf
   ⟨h.2.2.1, h.1⟩
 
 /-- The same on the full chain model (WHERE = members joined as OR of AND-runs with the cursor appended,
     ORDER BY = user columns then the key): exact whenever the chain has no `Or` member (¬F7b), the user
     ordering is key-monotone on the table (¬F7; in particular when there is none) and the effective LIMIT is
     not 0 (¬F7c). -/
-theorem C15_batches_exact_partial (tbl : List Nat) (us : List WUnit) (ord : List OrdCol)
+theorem C15_batches_exact_partial (zeroRet : Bool) (tbl : List Nat) (us : List WUnit) (ord : List OrdCol)
     (lim : Option Limit) (batch : Int)
     (hs : tbl.Pairwise (· < ·)) (hp : ∀ k ∈ tbl, 0 < k) (hb : 0 < batch)
     (hNoOr : ∀ u ∈ us, u.isOr = false) (hOrd : KeyMonotone tbl ord) (hL0 : effLimitOf lim ≠ some 0)
     (fuel : Nat) (hf : tbl.length + 1 ≤ fuel) :
-    let out := findInBatchesW tbl us ord lim batch fuel
+    let out := findInBatchesW zeroRet tbl us ord lim batch fuel
     out.batches.flatten = findAllW tbl us ord lim
     ∧ findAllW tbl us ord lim = window (matchingW tbl us) (effLimitOf lim) (effOffsetOf lim)
     ∧ (∀ b ∈ out.batches, b ≠ [] ∧ (b.length : Int) ≤ batch)
@@ -105,10 +140,39 @@ theorem C15_batches_exact_partial (tbl : List Nat) (us : List WUnit) (ord : List
   have hlen : (matchingW tbl us).length + 1 ≤ fuel := by
     have : (matchingW tbl us).length ≤ tbl.length := List.length_filter_le _ _
     omega
-  have e1 : out = findInBatches (matchingW tbl us) lim batch fuel :=
-    findInBatchesW_eq tbl us ord hNoOr hOrd lim batch fuel
+  have e1 : out = findInBatches zeroRet (matchingW tbl us) lim batch fuel :=
+    findInBatchesW_eq zeroRet tbl us ord hNoOr hOrd lim batch fuel
   have e2 := findAllW_eq tbl us ord hNoOr hOrd lim
-  obtain ⟨h1, h2, h3, h4, h5⟩ := findInBatches_spec (matchingW tbl us) lim batch fuel hM hMp hb hL0 hlen
+  obtain ⟨h1, h2, h3, h4, h5⟩ := findInBatches_spec zeroRet (matchingW tbl us) lim batch fuel hM hMp hb hL0 hlen
+  rw [e1, e2]
+  refine ⟨h1, rfl, h2, ?_, ?_, h3, h4⟩
+  · rw [h1]; exact List.Pairwise.sublist (findAll_sublist _ lim) hM
+  · rw [h5, h1]
+
+/-- the full chain model for the transcription WITH the early return: the exclusion of LIMIT 0 is gone, only the
+    two findings that are not repaired (¬F7b: no `Or` member; ¬F7: key-monotone user ordering) remain excluded. -/
+theorem C15_batches_exact_partial_repaired (tbl : List Nat) (us : List WUnit) (ord : List OrdCol)
+    (lim : Option Limit) (batch : Int)
+    (hs : tbl.Pairwise (· < ·)) (hp : ∀ k ∈ tbl, 0 < k) (hb : 0 < batch)
+    (hNoOr : ∀ u ∈ us, u.isOr = false) (hOrd : KeyMonotone tbl ord)
+    (fuel : Nat) (hf : tbl.length + 1 ≤ fuel) :
+    let out := findInBatchesW true tbl us ord lim batch fuel
+    out.batches.flatten = findAllW tbl us ord lim
+    ∧ findAllW tbl us ord lim = window (matchingW tbl us) (effLimitOf lim) (effOffsetOf lim)
+    ∧ (∀ b ∈ out.batches, b ≠ [] ∧ (b.length : Int) ≤ batch)
+    ∧ out.batches.flatten.Pairwise (· < ·)
+    ∧ out.rowsAffected = (out.batches.flatten.length : Int)
+    ∧ out.outOfFuel = false ∧ out.pkRequired = false := by
+  intro out
+  have hM : (matchingW tbl us).Pairwise (· < ·) := List.Pairwise.sublist List.filter_sublist hs
+  have hMp : ∀ k ∈ matchingW tbl us, 0 < k := fun k hk => hp k (List.mem_filter.mp hk).1
+  have hlen : (matchingW tbl us).length + 1 ≤ fuel := by
+    have : (matchingW tbl us).length ≤ tbl.length := List.length_filter_le _ _
+    omega
+  have e1 : out = findInBatches true (matchingW tbl us) lim batch fuel :=
+    findInBatchesW_eq true tbl us ord hNoOr hOrd lim batch fuel
+  have e2 := findAllW_eq tbl us ord hNoOr hOrd lim
+  obtain ⟨h1, h2, h3, h4, h5⟩ := findInBatches_spec_zeroRet (matchingW tbl us) lim batch fuel hM hMp hb hlen
   rw [e1, e2]
   refine ⟨h1, rfl, h2, ?_, ?_, h3, h4⟩
   · rw [h1]; exact List.Pairwise.sublist (findAll_sublist _ lim) hM
@@ -119,21 +183,53 @@ theorem C15_no_user_order_monotone (tbl : List Nat) (hs : tbl.Pairwise (· < ·)
   keyMonotone_nil tbl hs
 
 /-- non-vacuity: 7 rows with gaps, WHERE `k ≠ 4 AND k < 12`, Limit(5).Offset(1), batch 2 -/
-example : (findInBatchesW [1, 2, 4, 5, 8, 9, 13] [⟨false, fun k => k != 4⟩, ⟨false, fun k => k < 12⟩] []
+example : (findInBatchesW false [1, 2, 4, 5, 8, 9, 13] [⟨false, fun k => k != 4⟩, ⟨false, fun k => k < 12⟩] []
+      (applyCalls none [.limit 5, .offset 1]) 2 9).batches = [[2, 5], [8, 9]]
+    ∧ (findInBatchesW true [1, 2, 4, 5, 8, 9, 13] [⟨false, fun k => k != 4⟩, ⟨false, fun k => k < 12⟩] []
       (applyCalls none [.limit 5, .offset 1]) 2 9).batches = [[2, 5], [8, 9]] := by decide
 
 /-- F7 (witness replayed on the real code): six rows, `Order("name")` with names descending in the key,
     batch 2: the key cursor under a non-key ordering delivers ids `[6 5] [6]` — row 6 twice, rows 1–4 never. -/
-theorem C15_batches_user_order_counterexample :
-    (findInBatchesW [1, 2, 3, 4, 5, 6] [] [{ key := fun k => 7 - (k : Int), desc := false }] none 2 8).batches = [[6, 5], [6]]
+theorem C15_batches_user_order_counterexample (zeroRet : Bool) :
+    (findInBatchesW zeroRet [1, 2, 3, 4, 5, 6] [] [{ key := fun k => 7 - (k : Int), desc := false }] none 2 8).batches = [[6, 5], [6]]
     ∧ findAllW [1, 2, 3, 4, 5, 6] [] [{ key := fun k => 7 - (k : Int), desc := false }] none = [6, 5, 4, 3, 2, 1] := by
-  decide
+  cases zeroRet <;> decide
 
-/-- F7c (witness replayed on the real code): `Limit(0)`: Find returns nothing, FindInBatches everything. -/
+/-- F7c (witness replayed on the real code), transcription WITHOUT the early return: `Limit(0)`: Find returns
+    nothing, FindInBatches everything. -/
 theorem C15_batches_limit_zero_counterexample :
-    (findInBatches [1, 2, 3] (applyCalls none [.limit 0]) 2 5).batches = [[1, 2], [3]]
+    (findInBatches false [1, 2, 3] (applyCalls none [.limit 0]) 2 5).batches = [[1, 2], [3]]
     ∧ findAll [1, 2, 3] (applyCalls none [.limit 0]) = [] := by
   decide
+
+/-- F7c on the tree as it is now (regenerated facts): FindInBatches exists, and either its preamble has the early
+    return for a stored LIMIT 0 and the batched read is exact for EVERY limit (0 included), or it has not and the
+    listed witness delivers rows Find does not return. -/
+theorem C15_batches_limit_zero_current_tree :
+    Gen.findInBatchesFound = true ∧
+    ((Gen.findInBatchesZeroLimitReturn = true ∧
+        ∀ (rows : List Nat) (lim : Option Limit) (batch : Int),
+          rows.Pairwise (· < ·) → (∀ k ∈ rows, 0 < k) → 0 < batch →
+          (findInBatches Gen.findInBatchesZeroLimitReturn rows lim batch (rows.length + 2)).batches.flatten
+              = findAll rows lim
+          ∧ (findInBatches Gen.findInBatchesZeroLimitReturn rows lim batch (rows.length + 2)).rowsAffected
+              = ((findAll rows lim).length : Int)
+          ∧ (findInBatches Gen.findInBatchesZeroLimitReturn rows lim batch (rows.length + 2)).outOfFuel = false) ∨
+     (Gen.findInBatchesZeroLimitReturn = false ∧
+        (findInBatches Gen.findInBatchesZeroLimitReturn [1, 2, 3] (applyCalls none [.limit 0]) 2 5).batches.flatten
+          ≠ findAll [1, 2, 3] (applyCalls none [.limit 0]))) := by
+  refine ⟨by decide, ?_⟩
+  by_cases h : Gen.findInBatchesZeroLimitReturn = true
+  · left
+    refine ⟨h, ?_⟩
+    rw [h]
+    intro rows lim batch hs hp hb
+    obtain ⟨h1, -, h3, -, h5⟩ := findInBatches_spec_zeroRet rows lim batch (rows.length + 2) hs hp hb (by omega)
+    exact ⟨h1, h5, h3⟩
+  · right
+    have h' : Gen.findInBatchesZeroLimitReturn = false := by simpa using h
+    refine ⟨h', ?_⟩
+    rw [h']; decide
 
 /-- the witness chain of F7b: `Where("n <= 2").Or("n = 4")` over keys 1..4 (n = key) -/
 def f7bUnits : List WUnit := [⟨false, fun k => decide (k ≤ 2)⟩, ⟨true, fun k => decide (k = 4)⟩]
@@ -157,12 +253,13 @@ private theorem f7b_stuck (fuel : Nat) : ∀ (b ra : Int) (acc : List (List Nat)
 /-- F7b (witness replayed on the real code, loop bounded by an aborting callback): the cursor is AND-ed to
     the LAST OR-run only (`WHERE n <= 2 OR n = 4 AND id > 2`), rows 1,2 are delivered by every query and the
     loop NEVER ends: whatever the fuel, it is exhausted. -/
-theorem C15_batches_or_counterexample :
-    (∀ fuel, (findInBatchesW [1, 2, 3, 4] f7bUnits [] none 2 fuel).outOfFuel = true)
-    ∧ (findInBatchesW [1, 2, 3, 4] f7bUnits [] none 2 3).batches = [[1, 2], [1, 2], [1, 2]]
+theorem C15_batches_or_counterexample (zeroRet : Bool) :
+    (∀ fuel, (findInBatchesW zeroRet [1, 2, 3, 4] f7bUnits [] none 2 fuel).outOfFuel = true)
+    ∧ (findInBatchesW zeroRet [1, 2, 3, 4] f7bUnits [] none 2 3).batches = [[1, 2], [1, 2], [1, 2]]
     ∧ findAllW [1, 2, 3, 4] f7bUnits [] none = [1, 2, 4] := by
-  refine ⟨?_, by decide, by decide⟩
+  refine ⟨?_, by cases zeroRet <;> decide, by decide⟩
   intro fuel
+  rw [findInBatchesW, findInBatchesQ_loop zeroRet _ none 2 fuel (by decide)]
   cases fuel with
   | zero => rfl
   | succ fuel =>
@@ -349,40 +446,93 @@ theorem C15_find_under_fault (rows : List SRow) (f : Option Nat) (raise : Bool) 
 /-- finisher_api.go Scan (Rows, one rows.Next, ScanRows in ScanInitialized mode | else-branch) reports the SAME
     error and RowsAffected as Find on every cursor — in particular the driver's error whenever the fault is
     reached, never a silent prefix — and leaves the same destination content: map slices always, struct slices
-    unless no row was read into a non-empty slice (¬F7e). -/
-theorem C15_scan_eq_find (rows : List SRow) (f : Option Nat) (cols : List String) (sch : Schema)
+    unless no row was read into a non-empty slice (¬F7e).  Holds for both transcriptions of the else-branch
+    (`reset`); `C15_scan_eq_find_repaired` drops the exclusion for the repaired one. -/
+theorem C15_scan_eq_find (reset : Bool) (rows : List SRow) (f : Option Nat) (cols : List String) (sch : Schema)
     (old olds : List Rec) :
     let q := queryPath (mkCursor rows f) false cols (.structs sch old)
-    let s := dbScan (mkCursor rows f) cols (.structs sch old)
+    let s := dbScan reset (mkCursor rows f) cols (.structs sch old)
     let qm := queryPath (mkCursor rows f) false cols (.maps olds)
-    let sm := dbScan (mkCursor rows f) cols (.maps olds)
+    let sm := dbScan reset (mkCursor rows f) cols (.maps olds)
     s.err = q.err ∧ s.ra = q.ra ∧ sm.err = qm.err ∧ sm.ra = qm.ra ∧ sm.dest = qm.dest
     ∧ (delivered rows f ≠ [] ∨ old = [] → s.dest = q.dest) := by
   dsimp only
   rw [mkCursor_eq]
   cases hd : delivered rows f with
   | nil =>
-    cases hf : faultReached rows f <;>
-      simp [dbScan, queryPath, gormScan, finishScan, loopStructs, loopMaps, loopG]
+    cases hf : faultReached rows f <;> cases reset <;>
+      simp [dbScan, noRowDest, queryPath, gormScan, finishScan, loopStructs, loopMaps, loopG]
   | cons r rs =>
     cases hf : faultReached rows f <;>
       simp [dbScan, queryPath, gormScan, finishScan]
 
-/-- F7e (witness replayed on the real code): `Scan(&xs)` with `xs` non-empty and an empty result keeps the
-    stale elements (RowsAffected 0), `Find(&xs)` on the same cursor empties the slice. -/
+/-- FULL strength for the transcription whose else-branch empties a slice destination (`reset = true`): on EVERY
+    cursor and for EVERY previous content of the destination slice, Scan leaves exactly what Find leaves, with the
+    same error and RowsAffected — the hypothesis that excluded F7e is gone. -/
+theorem C15_scan_eq_find_repaired (rows : List SRow) (f : Option Nat) (cols : List String) (sch : Schema)
+    (old olds : List Rec) :
+    let q := queryPath (mkCursor rows f) false cols (.structs sch old)
+    let s := dbScan true (mkCursor rows f) cols (.structs sch old)
+    let qm := queryPath (mkCursor rows f) false cols (.maps olds)
+    let sm := dbScan true (mkCursor rows f) cols (.maps olds)
+    s.dest = q.dest ∧ s.err = q.err ∧ s.ra = q.ra ∧ sm.dest = qm.dest ∧ sm.err = qm.err ∧ sm.ra = qm.ra := by
+  dsimp only
+  rw [mkCursor_eq]
+  cases hd : delivered rows f with
+  | nil =>
+    cases hf : faultReached rows f <;>
+      simp [dbScan, noRowDest, queryPath, gormScan, finishScan, loopStructs, loopMaps, loopG]
+  | cons r rs =>
+    cases hf : faultReached rows f <;>
+      simp [dbScan, queryPath, gormScan, finishScan]
+
+/-- non-vacuity of the repaired case: two stale elements, an empty result / a fault before the first row -/
+example : (dbScan true (mkCursor [] none) ["id"] (.structs [⟨"id", some 0, false⟩] [[("id", some 77)], [("id", some 78)]])).dest
+      = .structs [⟨"id", some 0, false⟩] []
+    ∧ (dbScan true (mkCursor [[some 1]] (some 0)) ["id"] (.structs [⟨"id", some 0, false⟩] [[("id", some 77)]])).dest
+      = (queryPath (mkCursor [[some 1]] (some 0)) false ["id"] (.structs [⟨"id", some 0, false⟩] [[("id", some 77)]])).dest
+    ∧ (dbScan true (mkCursor [] none) ["id"] (.maps [[("id", some 77)]])).dest = .maps [[("id", some 77)]] := by decide
+
+/-- F7e (witness replayed on the real code), transcription whose else-branch does not touch dest: `Scan(&xs)`
+    with `xs` non-empty and an empty result keeps the stale elements (RowsAffected 0), `Find(&xs)` on the same
+    cursor empties the slice. -/
 theorem C15_scan_keeps_dest_counterexample :
-    (dbScan (mkCursor [] none) ["id"] (.structs [⟨"id", some 0, false⟩] [[("id", some 77)]])).dest
+    (dbScan false (mkCursor [] none) ["id"] (.structs [⟨"id", some 0, false⟩] [[("id", some 77)]])).dest
         = .structs [⟨"id", some 0, false⟩] [[("id", some 77)]]
     ∧ (queryPath (mkCursor [] none) false ["id"] (.structs [⟨"id", some 0, false⟩] [[("id", some 77)]])).dest
         = .structs [⟨"id", some 0, false⟩] [] := ⟨rfl, rfl⟩
 
+/-- F7e on the tree as it is now (regenerated facts): DB.Scan has its `if rows.Next() … else …` shape, and either
+    the else-branch empties a slice destination and Scan leaves what Find leaves on EVERY cursor and previous
+    content, or it does not and the listed witness keeps its stale element. -/
+theorem C15_scan_keeps_dest_current_tree :
+    Gen.scanElseBranchFound = true ∧
+    ((Gen.scanNoRowResetsSlice = true ∧
+        ∀ (rows : List SRow) (f : Option Nat) (cols : List String) (sch : Schema) (old : List Rec),
+          (dbScan Gen.scanNoRowResetsSlice (mkCursor rows f) cols (.structs sch old)).dest
+            = (queryPath (mkCursor rows f) false cols (.structs sch old)).dest) ∨
+     (Gen.scanNoRowResetsSlice = false ∧
+        (dbScan Gen.scanNoRowResetsSlice (mkCursor [] none) ["id"] (.structs [⟨"id", some 0, false⟩] [[("id", some 77)]])).dest
+          ≠ (queryPath (mkCursor [] none) false ["id"] (.structs [⟨"id", some 0, false⟩] [[("id", some 77)]])).dest)) := by
+  refine ⟨by decide, ?_⟩
+  by_cases h : Gen.scanNoRowResetsSlice = true
+  · left
+    refine ⟨h, ?_⟩
+    rw [h]
+    intro rows f cols sch old
+    exact (C15_scan_eq_find_repaired rows f cols sch old []).1
+  · right
+    have h' : Gen.scanNoRowResetsSlice = false := by simpa using h
+    refine ⟨h', ?_⟩
+    rw [h']; decide
+
 /-- No multi-row read path returns a truncated prefix with a nil error: when Find, Scan or the caller's
     `for rows.Next() { ScanRows }` loop (checking `rows.Err()` afterwards) report no error, they have delivered
     EVERY row of the result set; when the driver fails within the result set, all three report it. -/
-theorem C15_no_silent_prefix (rows : List SRow) (f : Option Nat) (cols : List String) (sch : Schema)
+theorem C15_no_silent_prefix (reset : Bool) (rows : List SRow) (f : Option Nat) (cols : List String) (sch : Schema)
     (old : List Rec) (d : Dest) :
     let q := queryPath (mkCursor rows f) false cols (.structs sch old)
-    let s := dbScan (mkCursor rows f) cols (.structs sch old)
+    let s := dbScan reset (mkCursor rows f) cols (.structs sch old)
     let l := rowsLoop cols (mkCursor rows f) d []
     (q.err = false → q.ra = rows.length)
     ∧ (s.err = false → s.ra = rows.length)
@@ -391,7 +541,7 @@ theorem C15_no_silent_prefix (rows : List SRow) (f : Option Nat) (cols : List St
     ∧ q.ra ≤ rows.length ∧ l.1.length = q.ra := by
   intro q s l
   have hq := C15_find_under_fault rows f false cols sch old [] none
-  have hs := C15_scan_eq_find rows f cols sch old []
+  have hs := C15_scan_eq_find reset rows f cols sch old []
   have hl : l = (snapsOf cols d (delivered rows f), faultReached rows f) := rowsLoop_mkCursor cols rows f d
   simp only at hq hs
   obtain ⟨-, -, hra, -, -, herr, -, -⟩ := hq
@@ -451,24 +601,24 @@ theorem C15_struct_elem_values (sch : Schema) (cols : List String) (r : SRow) (h
 /-- F7d (witness replayed on the real code): `Take(&x)` with `x.B = {916 true}` left over and a row whose `b` is
     NULL: the Query path (mode 0, struct not zeroed; field.Set ignores NULL for Scanner / non-pointer kinds) keeps
     916, while Scan / ScanRows (struct zeroed first) report NULL. -/
-theorem C15_stale_null_counterexample :
+theorem C15_stale_null_counterexample (reset : Bool) :
     (queryPath (mkCursor [[some 2, none]] none) true ["id", "b"]
         (.struct1 [⟨"id", some 0, false⟩, ⟨"b", none, false⟩] [("id", some 0), ("b", some 916)])).dest
       = .struct1 [⟨"id", some 0, false⟩, ⟨"b", none, false⟩] [("id", some 2), ("b", some 916)]
-    ∧ (dbScan (mkCursor [[some 2, none]] none) ["id", "b"]
+    ∧ (dbScan reset (mkCursor [[some 2, none]] none) ["id", "b"]
         (.struct1 [⟨"id", some 0, false⟩, ⟨"b", none, false⟩] [("id", some 0), ("b", some 916)])).dest
       = .struct1 [⟨"id", some 0, false⟩, ⟨"b", none, false⟩] [("id", some 2), ("b", none)] := by
-  decide
+  cases reset <;> decide
 
 /-- ¬F7d: when every field that field.Set does not reset on NULL holds its zero value in the destination struct
     (in particular a fresh struct; pointer fields may hold anything), First/Take/Last/Find into that ONE struct
     report, on every selected column, exactly what Scan / ScanRows report. -/
-theorem C15_single_struct_reuse_partial (sch : Schema) (v : Rec) (cols : List String) (r : SRow) (rest : List Ev)
+theorem C15_single_struct_reuse_partial (reset : Bool) (sch : Schema) (v : Rec) (cols : List String) (r : SRow) (rest : List Ev)
     (raise : Bool) (hn : cols.Nodup)
     (hz : ∀ fl ∈ sch, fl.resetOnNull = false → (recGet v fl.name).getD fl.zero = fl.zero)
     (c : String) (cell : Cell) (fl : FieldSpec) (hf : sch.field? c = some fl) (h : (c, cell) ∈ cols.zip r) :
     ∃ a b, (queryPath (.row r :: rest) raise cols (.struct1 sch v)).dest = .struct1 sch a
-      ∧ (dbScan (.row r :: rest) cols (.struct1 sch v)).dest = .struct1 sch b
+      ∧ (dbScan reset (.row r :: rest) cols (.struct1 sch v)).dest = .struct1 sch b
       ∧ recGet a c = recGet b c := by
   refine ⟨scanIntoStruct sch v cols r, scanIntoStruct sch (zeroRec sch) cols r, rfl, rfl, ?_⟩
   rw [scanIntoStruct_get sch _ cols r hn c cell fl hf h, scanIntoStruct_get sch _ cols r hn c cell fl hf h,
@@ -491,9 +641,9 @@ theorem C15_single_struct_reuse_partial (sch : Schema) (v : Rec) (cols : List St
 /-- single-row destinations under a fault: the error is reported iff the FIRST `rows.Next()` fails; a fault behind
     the consumed row is not looked at (the latitude the oracle leaves), and ErrRecordNotFound is raised exactly
     when the result set is empty and no error occurred. -/
-theorem C15_single_under_fault (rows : List SRow) (f : Option Nat) (cols : List String) (m : Rec) :
+theorem C15_single_under_fault (reset : Bool) (rows : List SRow) (f : Option Nat) (cols : List String) (m : Rec) :
     let q := queryPath (mkCursor rows f) true cols (.map1 m)
-    let s := dbScan (mkCursor rows f) cols (.map1 m)
+    let s := dbScan reset (mkCursor rows f) cols (.map1 m)
     (q.err = true ↔ f = some 0) ∧ (s.err = true ↔ f = some 0)
     ∧ (q.notFound = true ↔ rows = [] ∧ f ≠ some 0) ∧ s.notFound = false
     ∧ q.ra = s.ra ∧ (q.ra = 1 ↔ delivered rows f ≠ []) := by
